@@ -214,6 +214,18 @@ def judge_seeds(ctx, mode, extra, obs, acc):
         for k_, v in strands.items():
             if len(v) == 2 and min(v.values()) == 0 and max(v.values()) > 0:
                 acc.classes['correlations-with-peaks-on-one-strand-only'] += 1
+    if '-md' not in extra:
+        for ev in first:
+            if ev[0] == 'seeds' and len(ev) > 6 and ev[6] is not None and len(ev[6]) < 40:
+                kept = sorted((p[2] for p in ev[5]), reverse=True)
+                want = ev[6][:min(pc, len(ev[6]))]
+                if [round(x, 9) for x in kept] != [round(x, 9) for x in want]:
+                    found.append(('kept-peaks-are-not-the-peaksCount-highest', 'query %s reference %s strand %s -p %d: %d peaks kept, %d peaks above the '
+                                  'threshold; kept heights %s, highest %s' % (ev[1], ev[3], '-' if ev[4] else '+', pc, len(kept), len(ev[6]), kept[-3:], want[-3:]),
+                                  'selection', {}))
+                    break
+                if acc is not None and len(ev[6]) > 10 and pc > 10:
+                    acc.classes['correlations-with-more-than-10-peaks-and-peaksCount-above-10'] += 1
     planted = ctx.world.get('planted')
     if planted:
         # a noise-free copy of the labels that start `before` bp into reference 1: the refined correlation peak of the candidate on that
@@ -247,6 +259,28 @@ def judge_seeds(ctx, mode, extra, obs, acc):
             acc.nontriv((ctx.key, pc, qid))
             acc.classes['queries-with-more-peaks-than-peaksCount-on-several-references-or-strands'] += 1
     return found
+
+
+def array_layer(tier, seed):
+    """a reference with 24 tandem copies of a 25.2 kb unit: one correlation has more than ten peaks that are at least minPeakDistance apart;
+    run with peaksCount 12 and 14 (above the fixed cap of 10 that the refinement step uses for ITS peaks)"""
+    from mc import e2e, sink, worlds as W
+    a = W.catalogue_ref(3, 'lattice4200', 21, ref_id=5)
+    pos = list(a[2])
+    x = pos[-1] + 12600.0
+    for u in range(24):
+        for o in (0.0, 4200.0, 12600.0):
+            pos.append(x + u * 25200.0 + o)
+    tail = [pos[-1] + 16800.0 + (p - a[2][0]) for p in a[2]]
+    arr = (5, tail[-1] + 14000.0, pos + tail)
+    plain = e2e.std_refs()[0]
+    qs = []
+    for j, (st, n) in enumerate(((21 + 3 * 4, 12), (21 + 3 * 9 + 1, 13))):
+        qs.append(W.as_map(e2e.QIDS[j], W.window_query(arr, st, n, bool(j))[0][2]))
+    ws = [dict(refs=[arr, plain], queries=qs, desc=['window of a 24-copy tandem array'] * 2)]
+    return e2e.WorldLayer('S2:array', ws, judge_seeds, extras=(('-p', '12'), ('-p', '14')), modes=('all',),
+                          extensions=[sink.Candidates, sink.Seeds, sink.Refined], bounds=dict(worlds=1, peaksCount=[12, 14], tandem_copies=24),
+                          rule='windows of a 24-copy tandem array x peaksCount {12, 14}', cli_every=0)
 
 
 def seed_layer(tier, seed):
@@ -356,5 +390,5 @@ class Space(core.Layer):
 
 def layers(tier, seed):
     if tier == 'quick':
-        return [Space('n<=4,len<=8', 4, 8), Generator('seq2:n<=2', 2), seed_layer(tier, seed)]
-    return [Space('n<=4,len<=8', 4, 8), Generator('seq2:n<=3', 3), seed_layer(tier, seed), Space('n<=6,len<=12', 6, 12, optional=True)]
+        return [Space('n<=4,len<=8', 4, 8), Generator('seq2:n<=2', 2), seed_layer(tier, seed), array_layer(tier, seed)]
+    return [Space('n<=4,len<=8', 4, 8), Generator('seq2:n<=3', 3), seed_layer(tier, seed), array_layer(tier, seed), Space('n<=6,len<=12', 6, 12, optional=True)]
